@@ -32,9 +32,11 @@ type ruleState struct {
 	schedDeleted map[string]int64
 
 	cycles        map[string]*cycleInfo
+	travs         map[int]*traversal
 	q0roots       map[string]bool
 	rootMoved     map[string]bool
 	fastSchedules map[string]bool
+	budgetCapped  bool
 
 	quiescing      bool
 	quiesceStartEv int64
@@ -339,11 +341,11 @@ func (r *ruleState) tablesStep(a, b *tables.Tables, gran string) {
 			s.violate("T1.vanished", P("C01", "C06"), "promise", "row disappeared", p.String())
 			continue
 		}
-		if x, y := rowCreationSig(p), rowCreationSig(q); x != y || p.SortId != q.SortId {
+		if !p.CreationEq(q) && (rowCreationSig(p) != rowCreationSig(q) || p.SortId != q.SortId) {
 			s.violate("T1.creation_changed", P("C01", "C20"), "promise", "creation fields changed", fmt.Sprintf("%s -> %s", p, q))
 		}
 		if p.State != 1 {
-			if p.String() != q.String() {
+			if !p.Eq(q) {
 				s.violate("T2.completed_changed", P("C01", "C03"), "promise", fmt.Sprintf("state %d->%d", p.State, q.State), fmt.Sprintf("%s -> %s", p, q))
 			}
 		} else if q.State != 1 && q.State != 2 && q.State != 4 && q.State != 8 && q.State != 16 {
@@ -369,7 +371,7 @@ func (r *ruleState) tablesStep(a, b *tables.Tables, gran string) {
 		if u.Counter < t.Counter {
 			s.violate("T8.counter_decreased", P("C07"), "task", "counter decreased", fmt.Sprintf("%s -> %s", t, u))
 		}
-		if (t.State == 8 || t.State == 16) && t.String() != u.String() {
+		if (t.State == 8 || t.State == 16) && !t.Eq(u) {
 			s.violate("T8.finished_changed", P("C07"), "task", fmt.Sprintf("state %d->%d", t.State, u.State), fmt.Sprintf("%s -> %s", t, u))
 		}
 	}
@@ -584,7 +586,7 @@ func (r *ruleState) txStep(tr *TxRec, pre, post *tables.Tables) {
 			continue
 		}
 		active := func(st int) bool { return st == 1 || st == 2 || st == 4 }
-		if t.String() == u.String() {
+		if t.Eq(u) {
 			continue
 		}
 		if t.State == 1 && u.State != 1 && r.quiescing {
@@ -656,6 +658,9 @@ func (r *ruleState) txStep(tr *TxRec, pre, post *tables.Tables) {
 		}
 		if t.State == 1 && u.State == 1 && u.Attempt == t.Attempt+1 {
 			s.Probes["handoff_retry_recorded"]++
+			if r.quiescing {
+				r.rootMoved[t.RootPromiseId] = true
+			}
 		}
 	}
 
@@ -722,7 +727,7 @@ func (r *ruleState) heartbeatTasksRule(tr *TxRec, req *ReqRec, cmd *t_aio.Heartb
 		if mine {
 			want.ExpiresAt = cmd.Time + t.Ttl
 		}
-		if want.String() != u.String() {
+		if !want.Eq(u) {
 			s.violate("T10.heartbeat_effect", P("C07"), "heartbeat", "heartbeat changed something other than the lease of the caller's claimed tasks", fmt.Sprintf("%s -> %s, expected %s", t, u, &want))
 		}
 		if mine {
@@ -762,7 +767,7 @@ func (r *ruleState) heartbeatLocksRule(tr *TxRec, req *ReqRec, cmd *t_aio.Heartb
 		if l.ProcessId == cmd.ProcessId {
 			want.ExpiresAt = cmd.Time + l.Ttl
 		}
-		if want.String() != m.String() {
+		if !want.Eq(m) {
 			s.violate("T10.lock_heartbeat_effect", P("C09"), "heartbeat", "heartbeat changed something other than the lease of the caller's locks", fmt.Sprintf("%s -> %s, expected %s", l, m, &want))
 		}
 		if l.ProcessId == cmd.ProcessId {
@@ -788,7 +793,7 @@ func (r *ruleState) lockRules(tr *TxRec, req *ReqRec, pre, post *tables.Tables) 
 		l := pre.Locks[id]
 		m := post.Locks[id]
 		if m != nil && m.ExecutionId == l.ExecutionId {
-			if m.String() != l.String() {
+			if !m.Eq(l) {
 				// re-acquire or heartbeat
 				if req != nil && req.Req.Kind == t_api.AcquireLock {
 					a := req.Req.AcquireLock
